@@ -236,6 +236,7 @@ func init() {
 	register("C02", func(c *Ctx) {
 		p := c.P
 		c02OverrideOnlyWhenAbsent(c)
+		concurrentCaptureRule(c, "concurrent-capture", func(pk string) bool { return pk == "core" })
 		memoKeyRule(c, "memo-key", func(pk string) bool {
 			return pk == "core" || strings.HasPrefix(pk, "adapters/") || strings.HasPrefix(pk, "starknetdata") || pk == "blockchain" || pk == "sync"
 		})
